@@ -6,8 +6,9 @@ from hypothesis import strategies as st
 
 from vlib import gen_events as ge
 from vlib import gen_values as gv
+from vlib import greybox
 from vlib.runner import Arm, Eval, Failure
-from vlib.util import exc_key, exc_msg, have_c, has_foldable_more_indented_line
+from vlib.util import exc_key, exc_msg, have_c, has_foldable_more_indented_line, shorthand_with_flow_indicator
 
 PROPERTY = "C05"
 LEVEL = "exploration"
@@ -111,6 +112,70 @@ def eval_wellformed(case):
                                         "%s\ntext=%r" % (diff[1], text[:500])))
     return Eval(failures, sorted(cl), nontrivial=bool(cl), ident=repr(case), evals=evals,
                 sample={"events": [ge.ev_repr(e) for e in events[:12]], "options": repr(opts)})
+
+
+# --------------------------------------------------------------------------------------------
+# event streams obtained by parsing coverage-guided texts (every parser output is a well-formed event stream)
+
+OPT_SETS = [{}, {"canonical": True}, {"width": 10}, {"allow_unicode": True}, {"indent": 4, "width": 20}, {"line_break": "\r\n"},
+            {"indent": 7}, {"allow_unicode": True, "width": 5}, {"indent": 9, "width": 12}, {"line_break": "\r", "allow_unicode": True}]
+
+
+def eval_parsed(case):
+    import yaml
+    text, oi = case
+    opts = OPT_SETS[oi % len(OPT_SETS)]
+    try:
+        events = list(yaml.parse(text, Loader=yaml.Loader))
+    except yaml.YAMLError:
+        return Eval([], ["parsed", "parsed:text-rejected"], nontrivial=False, evals=1)
+    # libyaml knows %YAML 1.1 and 1.2 only (by design): other versions go through the pure-Python pair
+    portable = all(e.version in (None, (1, 1), (1, 2)) for e in events if isinstance(e, yaml.DocumentStartEvent))
+    cl = {"parsed", "parsed:docs=%d" % min(3, sum(isinstance(e, yaml.DocumentStartEvent) for e in events))}
+    for e in events:
+        if isinstance(e, yaml.ScalarEvent):
+            cl.add("parsed:scalar-style:%s" % (e.style or "plain"))
+            if e.tag:
+                cl.add("parsed:tag")
+        if getattr(e, "anchor", None):
+            cl.add("parsed:anchor")
+        if isinstance(e, yaml.DocumentStartEvent) and (e.version or e.tags):
+            cl.add("parsed:directive")
+    failures = []
+    evals = 1
+    for ename, D in emitters():
+        if ename == "c" and not portable:
+            continue
+        try:
+            out = yaml.emit(yaml.parse(text, Loader=yaml.Loader), Dumper=D, **opts)
+        except RecursionError:
+            raise
+        except Exception as e:
+            failures.append(Failure("emit-raised:%s:%s" % (ename, exc_key(e)), exc_msg(e)))
+            continue
+        evals += 1
+        for pname, L in parsers():
+            if pname == "c" and not portable:
+                continue
+            evals += 1
+            try:
+                back = list(yaml.parse(out, Loader=L))
+            except RecursionError:
+                raise
+            except Exception as e:
+                failures.append(Failure("parse-rejects-emitted:%s>%s:%s" % (ename, pname, exc_key(e)), "%s\ntext=%r" % (exc_msg(e), out[:500])))
+                continue
+            diff = ge.events_equivalent(events, back)
+            if diff is not None:
+                failures.append(Failure("not-equivalent:%s>%s:%s" % (ename, pname, diff[0]), "%s\ntext=%r" % (diff[1], out[:500])))
+    return Eval(failures, sorted(cl), nontrivial=len(events) > 4, ident=repr(case), evals=evals,
+                sample={"text": text[:300], "options": repr(opts), "events": [ge.ev_repr(e) for e in events[:10]]})
+
+
+def parsed_campaign(shard, nshards, tier):
+    from vlib.runner import h64
+    return greybox.campaign(shard, nshards, tier, PROPERTY, "parsed", quick=14000, thorough=800000,
+                            wrap=lambda t: (t, h64(t) % len(OPT_SETS)))
 
 
 # --------------------------------------------------------------------------------------------
@@ -266,6 +331,8 @@ def arms(tier):
         Arm("wellformed", eval_wellformed, wellformed_cases, quick=9000, thorough=400000),
         Arm("scalar", eval_wellformed, scalar_focus_cases, quick=12000, thorough=500000),
         Arm("mutant", eval_mutant, mutant_cases, quick=6000, thorough=200000),
+        # coverage-guided texts -> parser -> emitter -> parser (vlib/greybox.py)
+        Arm("parsed", eval_parsed, enum=parsed_campaign),
         Arm("kinds", eval_kinds, enum=enum_kinds, exhaustive=True),
         Arm("badargs", eval_badargs, enum=enum_badargs, exhaustive=True, shards=1),
     ]
@@ -282,6 +349,21 @@ def _c_empty_first_doc(stream, opts):
 
 
 def known_class(arm, case, key):
+    if arm == "parsed" and (key.startswith("not-equivalent:c>") or key.startswith("parse-rejects-emitted:c>")):
+        import yaml
+        text, oi = case
+        opts = OPT_SETS[oi % len(OPT_SETS)]
+        events = list(yaml.parse(text, Loader=yaml.Loader))
+        if (not opts.get("canonical") and len(events) > 2 and isinstance(events[1], yaml.DocumentStartEvent) and not events[1].explicit
+                and isinstance(events[2], yaml.ScalarEvent) and events[2].value == "" and not events[2].style and events[2].implicit[0]
+                and not events[2].anchor and (key.endswith(":structure") or key.startswith("parse-rejects-emitted:c>"))):
+            return "libyaml-drops-empty-implicit-first-document"
+        for e in events:
+            if isinstance(e, yaml.ScalarEvent) and e.style == ">" and has_foldable_more_indented_line(e.value):
+                return "libyaml-folds-inside-more-indented-line"
+        if key.startswith(("parse-rejects-emitted:c>c", "not-equivalent:c>c")) and shorthand_with_flow_indicator(events):
+            return "libyaml-emitter-writes-flow-indicator-in-shorthand-tag"
+        return None
     if arm in ("wellformed", "scalar") and (key.startswith("not-equivalent:c>") or key.startswith("parse-rejects-emitted:c>")):
         if _c_empty_first_doc(*case) and (key.endswith(":structure") or key.startswith("parse-rejects-emitted:c>")):
             return "libyaml-drops-empty-implicit-first-document"
@@ -290,6 +372,8 @@ def known_class(arm, case, key):
         for t, style in _scalar_styles(stream):
             if style == ">" and has_foldable_more_indented_line(t):
                 return "libyaml-folds-inside-more-indented-line"
+    if arm in ("wellformed", "scalar") and key.startswith(("parse-rejects-emitted:c>c", "not-equivalent:c>c")) and shorthand_with_flow_indicator(ge.build_events(case[0])):
+        return "libyaml-emitter-writes-flow-indicator-in-shorthand-tag"
     return None
 
 
@@ -322,6 +406,15 @@ def pinned_known(key, rec):
               E.DocumentEndEvent(), E.StreamEndEvent()]
         back = list(yaml.parse(yaml.emit(ev, Dumper=yaml.CDumper, width=20)))
         return back[2].value != s
+    if key == "libyaml-emitter-writes-flow-indicator-in-shorthand-tag":
+        if not have_c():
+            return False
+        ev = [E.StreamStartEvent(), E.DocumentStartEvent(), E.ScalarEvent(None, "!a,b", (False, False), "x"), E.DocumentEndEvent(), E.StreamEndEvent()]
+        try:
+            list(yaml.parse(yaml.emit(ev, Dumper=yaml.CDumper), Loader=yaml.CLoader))
+        except yaml.YAMLError:
+            return True
+        return False
     if key == "libyaml-drops-empty-implicit-first-document":
         if not have_c():
             return False
